@@ -664,6 +664,26 @@ Fixpoint session (W : World) (quiet : bool) (ft : text W -> out) (fe : wexn W ->
 Definition session_out (tbl : list qfact) (qs : list query_directive) (errs quiet : bool) (st : state) (lines : list str) : out :=
   OL (session (sym_world tbl qs errs) quiet (fun t => t) (fun e => e) st lines).
 
+(* a session during which the ledger file is rewritten and reloaded: each segment starts at the
+   `.reload` that picks up a rewritten file and runs in the world of that file; the settings carry over *)
+Fixpoint final_state (W : World) (quiet : bool) (st : state) (lines : list str) : state :=
+  match lines with
+  | [] => st
+  | l :: t => final_state W quiet (fst (fst (step W quiet st l))) t
+  end.
+
+Fixpoint chain (quiet : bool) (st : state)
+  (segs : list (list qfact * list query_directive * bool * list str)) : list out :=
+  match segs with
+  | [] => []
+  | (tbl, qs, errs, lines) :: t =>
+      let W := sym_world tbl qs errs in
+      (session W quiet (fun x => x) (fun e => e) st lines ++ chain quiet (final_state W quiet st lines) t)%list
+  end.
+
+Definition chain_out (quiet : bool) (st : state)
+  (segs : list (list qfact * list query_directive * bool * list str)) : out := OL (chain quiet st segs).
+
 Definition cli_out (tbl : list qfact) (qs : list query_directive) (errs : bool) (c : cli) : out :=
   let '(startup, target, evs) := cli_run (sym_world tbl qs errs) c in
   OL [o_list (@o_event (sym_world tbl qs errs) (fun t => t) (fun e => e)) startup; o_option o_str target;
